@@ -103,3 +103,42 @@ func (db *Database) GetZSetRecord(key string) (*Record, *ZSet, error) {
 	}
 	return record, zset, nil
 }
+
+// LookupListRecord returns the list stored at the key without creating it.
+func (db *Database) LookupListRecord(key string) (*List, bool, error) {
+	record, ok := db.GetRecord(key)
+	if !ok {
+		return nil, false, nil
+	}
+	list, ok := record.Data.(*List)
+	if !ok {
+		return nil, false, fmt.Errorf(errorInvalidStoredDataType, record.Data)
+	}
+	return list, true, nil
+}
+
+// LookupSetRecord returns the set stored at the key without creating it.
+func (db *Database) LookupSetRecord(key string) (*Set, bool, error) {
+	record, ok := db.GetRecord(key)
+	if !ok {
+		return nil, false, nil
+	}
+	set, ok := record.Data.(*Set)
+	if !ok {
+		return nil, false, fmt.Errorf(errorInvalidStoredDataType, record.Data)
+	}
+	return set, true, nil
+}
+
+// LookupZSetRecord returns the sorted set stored at the key without creating it.
+func (db *Database) LookupZSetRecord(key string) (*ZSet, bool, error) {
+	record, ok := db.GetRecord(key)
+	if !ok {
+		return nil, false, nil
+	}
+	zset, ok := record.Data.(*ZSet)
+	if !ok {
+		return nil, false, fmt.Errorf(errorInvalidStoredDataType, record.Data)
+	}
+	return zset, true, nil
+}
